@@ -9,10 +9,13 @@ spec -> code, four exhaustive TLC models (design-checked against the declarative
   * FeatStatsDelta.tla + FeatStatsLayout.tla: every exported delta case laid out by every
     (dim, time_dim, concatenate) of a 3-D input as the layout machine prescribes, through
     feat_deltas / FeatureDeltas.
-  * FeatStatsReturn.tla: every reward sequence x gamma through time_distributed_return, both layouts.
+  * FeatStatsReturn.tla: every reward sequence x gamma through time_distributed_return, both layouts; and,
+    justified by the TLC-checked ConcatLemma / EmbedLemma / SuperposeLemma, every exported case embedded at many
+    offsets (one offset per batch column) of LONG all-zero sequences (1000..2500 steps).
 """
 import math
 import os
+import random
 import sys
 import warnings
 
@@ -365,6 +368,191 @@ def replay_returns(ctx, key, g):
 
 
 # =====================================================================================
+# time_distributed_return on long sequences (FeatStatsReturn!EmbedLemma / SuperposeLemma)
+# =====================================================================================
+LONG_T = (1000, 1024, 1500, 2048, 2500)
+LONG_GAMMAS = ((0, 1), (1, 2), (7, 8), (31, 32), (1, 1), (33, 32), (2, 1))
+LONG_SITE = "time_distributed_return"
+
+
+def long_columns(rng, T, cases, ncols, rot, max_offset=None):
+    """-> list of columns; a column is a list of (offset, case) with disjoint, increasing spans.  The offsets sit at
+    the start, at the very end, next to and across every power of two p and T - p (where an implementation that
+    works in blocks would put a boundary), and at seeded random places; different columns, different offsets."""
+    hi = T if max_offset is None else min(T, max_offset)
+    anchors = [0, 1, 2, hi, hi - 1]
+    for p in (32, 64, 100, 128, 256, 500, 512, 1000, 1024, 2048):
+        anchors += [p, p + 1, hi - p, hi - p + 1, T - p, T - p + 1]
+    anchors = sorted({a for a in anchors if 0 <= a <= hi})
+    cols = []
+    for j in range(ncols):
+        c = cases[(j + rot) % len(cases)]
+        n = len(c["r"])
+        if j < 2 * len(anchors):
+            # the case ends at / straddles / starts at the anchor
+            o = anchors[j % len(anchors)] - ((j // len(anchors)) * 2 + j) % (n + 1)
+        else:
+            o = rng.randrange(0, hi)
+        o = max(0, min(o, hi - n))
+        col = [(o, c)]
+        if j % 3 == 2:
+            # a second case to the right of the first, separated by zeros (SuperposeLemma)
+            c2 = cases[(j * 7 + rot + 1) % len(cases)]
+            lo = o + n
+            if lo + len(c2["r"]) <= hi:
+                o2 = rng.choice([lo, lo + 1, hi - len(c2["r"]), rng.randrange(lo, hi - len(c2["r"]) + 1)])
+                col.append((o2, c2))
+        cols.append(col)
+    return cols
+
+
+def long_expected(T, p, q, cols, absolute=False):
+    """what EmbedLemma / SuperposeLemma prescribe: sum over the embedded cases of  gamma^(o - t) * R[0] before the case,
+    R[t - o] inside it, 0 after it (R = the specification's exact returns of the case); float64.
+    absolute=True: the same with |r| for r, i.e. sum_t' gamma^(t' - t) |r_t'|: the magnitude of the terms of the return,
+    which bounds the rounding error of ANY floating-point evaluation (for gamma > 1 the terms of two cases can cancel)"""
+    gamma = p / q
+    with warnings.catch_warnings():
+        warnings.simplefilter("ignore")
+        pw = torch.pow(torch.tensor(gamma, dtype=torch.double), torch.arange(T + 1, dtype=torch.double))
+    exp = torch.zeros(T, len(cols), dtype=torch.double)
+    for j, col in enumerate(cols):
+        for o, c in col:
+            R = [a / b for a, b in c["R"]]
+            if absolute:
+                R = [0.0] * len(R)
+                for i in range(len(R) - 1, -1, -1):
+                    R[i] = abs(c["r"][i]) + gamma * (R[i + 1] if i + 1 < len(R) else 0.0)
+            if o > 0 and R[0] != 0:
+                exp[:o, j] += R[0] * pw[1:o + 1].flip(0)
+            exp[o:o + len(R), j] += torch.tensor(R, dtype=torch.double)
+    return exp
+
+
+def long_input(T, cols, dtype):
+    r = torch.zeros(T, len(cols), dtype=dtype)
+    for j, col in enumerate(cols):
+        for o, c in col:
+            r[o:o + len(c["r"]), j] = torch.tensor(c["r"], dtype=dtype)
+    return r
+
+
+def replay_returns_long(ctx, T, p, q, cols, bf, dtype, module, family="long"):
+    """one call: column j of a (T, N) reward tensor holds cols[j].  Returns False after a violation."""
+    from pydrobert.torch import functional as F, modules as M
+
+    gamma = p / q
+    exp = long_expected(T, p, q, cols)
+    fin = torch.finfo(dtype)
+    if not bool(torch.isfinite(exp).all()) or float(exp.abs().max()) >= fin.max / 16:
+        raise MachineryError("long return case outside the range of %s (T=%d, gamma=%d/%d)" % (dtype, T, p, q))
+    r = long_input(T, cols, dtype)
+    rin = r.t().contiguous() if bf else r
+    info = dict(T=T, gamma_float=gamma, batch_first=bf, dtype=str(dtype), module=module, family=family)
+
+    def case_of(j, got):
+        return dict(kind="return_long", gamma=[p, q], col=[[o, dict(r=c["r"], R=c["R"])] for o, c in cols[j]], got=got, **info)
+
+    try:
+        if module:
+            got = quiet(M.TimeDistributedReturn(float(gamma), bf), rin)
+        else:
+            got = quiet(F.time_distributed_return, rin, float(gamma), bf)
+    except Exception as ex:
+        ctx.violation(dict(site=LONG_SITE, kind="exception_long_sequence"), "raised %r (%r)" % (ex, info), case_of(0, repr(ex)))
+        return False
+    ctx.case(n=len(cols))
+    ctx.traces += len(cols)
+    if tuple(got.shape) != tuple(rin.shape):
+        ctx.violation(dict(site=LONG_SITE, kind="shape"), "shape %s for input %s" % (tuple(got.shape), tuple(rin.shape)), case_of(0, None))
+        return False
+    gd = (got.t() if bf else got).double()
+    # float32: pow(gamma, k) for k up to 2500 may carry a relative error of k * 2^-24; float64: as for the short cases
+    tol = 2e-4 if dtype == torch.float else 1e-6
+    nonfinite = ~torch.isfinite(gd)
+    scale = long_expected(T, p, q, cols, absolute=True) if p > q else exp.abs()
+    bad = ((gd - exp).abs() > tol * scale.clamp_min(1.0)) | nonfinite
+    if not bool(bad.any()):
+        return True
+    if bool(nonfinite.any()):
+        t, j = nonfinite.nonzero()[0].tolist()
+        kind = "nan_long_sequence_growing_gamma" if p > q else "nan_long_sequence_power_ratio"
+    else:
+        ratio = (gd - exp).abs() / scale.clamp_min(1.0)
+        t, j = divmod(int(ratio.argmax()), ratio.size(1))  # the worst entry
+        kind = "value_long_sequence"
+    o0, c0 = cols[j][0]
+    oL, cL = cols[j][-1]
+    region = "before_case" if t < o0 else "after_case" if t >= oL + len(cL["r"]) else "inside_case"
+    if kind == "value_long_sequence":
+        sig = dict(site=LONG_SITE, kind=kind, region=region)
+    else:
+        sig = dict(site=LONG_SITE, kind=kind, gamma=str(p) if q == 1 else "%d/%d" % (p, q), T=T,
+                   dtype=str(dtype).replace("torch.", ""))
+    ctx.violation(sig,
+                  "R[%d] = %r, specification (EmbedLemma/SuperposeLemma) %r; column holds %s in %d zero rewards, gamma = %d/%d; "
+                  "%d of %d entries differ (%r)" % (t, gd[t, j].item(), exp[t, j].item(),
+                                                      ", ".join("r=%r at offset %d" % (c["r"], o) for o, c in cols[j]), T, p, q,
+                                                      int(bad.sum()), bad.numel(), info),
+                  case_of(j, gd[max(0, t - 3):t + 4, j].tolist()))
+    return False
+
+
+def run_returns_long(ctx, records):
+    """every exported case of the long gammas, embedded: one (gamma, T, layout) per call, cases and offsets spread over
+    the batch columns, dtype and functional/module rotating"""
+    q = ctx.quick
+    by_gamma = {}
+    for r in records:
+        g = tuple(r["gamma"])
+        if g in LONG_GAMMAS:
+            by_gamma.setdefault(g, {})[tuple(r["r"])] = r
+    missing = [g for g in LONG_GAMMAS if g not in by_gamma]
+    if missing:
+        raise MachineryError("no exported return cases for gamma in %r" % (missing,))
+    ncols = 96 if q else 192
+    call = 0
+    broken = set()
+    for gi, g in enumerate(LONG_GAMMAS):
+        p, qq = g
+        cases = [by_gamma[g][k] for k in sorted(by_gamma[g])]
+        # cases whose returns are all zero say nothing about where they sit
+        cases = [c for c in cases if any(c["r"])] + [c for c in cases if not any(c["r"])][:1]
+        for ti, T in enumerate(LONG_T):
+            layouts = (False, True) if (not q or T % 1024 or p == 0) else ((gi + ti) % 2 == 1,)
+            for bf in layouts:
+                for rep in range(1 if q else 2):
+                    dtype = torch.double if (call + gi) % 2 else torch.float
+                    module = bool(((call + gi) // 2) % 2)
+                    call += 1
+                    max_offset = None
+                    if p > qq:
+                        # the returns in front of a case grow like gamma^(offset - t): keep them (and the library's powers
+                        # gamma^(T-1)) inside the dtype -- unless that is impossible for this length
+                        lim = math.log(torch.finfo(dtype).max) / math.log(p / qq) - 8
+                        if T - 1 > lim:
+                            if dtype == torch.float and T - 1 <= math.log(torch.finfo(torch.double).max) / math.log(p / qq) - 8:
+                                dtype = torch.double
+                            else:
+                                continue
+                    if (g, dtype) in broken:
+                        continue
+                    cols = long_columns(ctx.rng, T, cases, ncols, rot=call * 5, max_offset=max_offset)
+                    if not replay_returns_long(ctx, T, p, qq, cols, bf, dtype, module):
+                        broken.add((g, dtype))  # one report per gamma and dtype
+    # gamma > 1 beyond the reach of the dtype's powers: a short case near the START of a long sequence; every true return
+    # is at most 2^20 (and 0 after the case), so the input is as legal as the short gamma = 2 cases
+    g = (2, 1)
+    cases = [by_gamma[g][k] for k in sorted(by_gamma[g]) if any(k)]
+    for T, dtype in ((1500, torch.double), (200, torch.float)):
+        for bf in (False, True):
+            call += 1
+            cols = long_columns(random.Random(T), T, cases, 48, rot=0, max_offset=16)
+            replay_returns_long(ctx, T, 2, 1, cols, bf, dtype, bool(call % 2), family="growing")
+    ctx.extra["long_return_calls"] = call
+
+
+# =====================================================================================
 # driver
 # =====================================================================================
 def _quota(ctx, machine, limit=2):
@@ -383,7 +571,10 @@ def run(ctx):
         "every behaviour of FeatStatsAcc.tla (data of 1..MaxN frames x 2 coefficients, every ordered partition = order and "
         "chunking of accumulate calls) through MeanVarianceNormalization for a normalised dim / chunk shape / dtype cycled "
         "over all legal ones, a seeded subset as directories through the command; every FeatStatsDelta.tla case under each of "
-        "the 84 (time_dim, dim, concatenate) layouts of FeatStatsLayout.tla; every FeatStatsReturn.tla case in both layouts.  "
+        "the 84 (time_dim, dim, concatenate) layouts of FeatStatsLayout.tla; every FeatStatsReturn.tla case in both layouts, and "
+        "(EmbedLemma / SuperposeLemma) the cases with gamma in {0, 1/2, 7/8, 31/32, 1, 33/32, 2} embedded at up to 192 offsets "
+        "(start, end, across powers of two p and T - p, seeded random; one or two cases per batch column) of all-zero "
+        "sequences of 1000, 1024, 1500, 2048 and 2500 steps.  "
         "Non-trivial = statistics case with >= 2 chunks and a non-zero variance, delta case of order >= 1 on a non-constant "
         "sequence, return case with gamma != 0, length >= 2 and a non-zero reward; distinct by the abstract case.")
     ctx.assumptions += [
@@ -394,7 +585,12 @@ def run(ctx):
         "standard deviation (sum of squares = n, or n - 1 with Bessel's correction); constant coefficients must normalise to 0",
         "reflect padding needs width*order < T and circular width*order <= T (torch.nn.functional.pad); other pad modes any",
         "the command is run in-process with --num-workers 0; multi-worker runs are not covered",
-        "gamma in {0, 1/2, 1, 3/2, 2, 3}",
+        "gamma in {0, 1/2, 1, 3/2, 2, 3} (short sequences), {0, 1/2, 7/8, 31/32, 1, 33/32, 2} (long sequences; gamma = 2 only "
+        "where gamma^(T-1) is a finite number of the dtype, i.e. float64 with T <= 1024; plus the family 'growing': gamma = 2, "
+        "cases within the first 16 steps of 1500 (float64) / 200 (float32) zero rewards, all true returns <= 2^20)",
+        "long sequences: values in front of an embedded case are gamma^(offset - t) * R[0] (FeatStatsReturn!EmbedLemma), "
+        "compared at 1e-6 (float64) / 2e-4 (float32) relative to max(1, |value|) (for gamma > 1: relative to the "
+        "magnitude of the terms sum gamma^(t'-t) |r_t'|, which can exceed the value when two embedded cases cancel)",
     ]
     S = _fs.spec
     kw = dict(workers=16, timeout=3000)
@@ -403,6 +599,7 @@ def run(ctx):
         ("delta", S("FeatStatsDeltaMC.tla"), S("FeatStatsDelta_quick.cfg" if q else "FeatStatsDelta_thorough.cfg"), kw),
         ("layout", S("FeatStatsLayout.tla"), S("FeatStatsLayout.cfg"), dict(workers=4, timeout=600)),
         ("ret", S("FeatStatsReturnMC.tla"), S("FeatStatsReturn_quick.cfg" if q else "FeatStatsReturn_thorough.cfg"), kw),
+        ("retl", S("FeatStatsReturnMC.tla"), S("FeatStatsReturn_long.cfg"), dict(workers=4, timeout=600)),
     ]
     if not q:
         jobs.append(("acc5", S("FeatStatsMC.tla"), S("FeatStatsAcc_thorough5.cfg"), kw))
@@ -416,7 +613,8 @@ def run(ctx):
     results = _fs.run_parallel(jobs)
     lap("tlc")
     actions = dict(acc=["Init", "Next"], delta=["Init", "BuildFilter", "Apply"],
-                   layout=["Init", "TimeLast", "Convolve", "Restore", "MoveOrder", "Flatten"], ret=["Init", "Row"])
+                   layout=["Init", "TimeLast", "Convolve", "Restore", "MoveOrder", "Flatten"], ret=["Init", "Row"],
+                   retl=["Init", "Row"])
     for name, res in results.items():
         tlc.require_ok(res, "FeatStats/" + name)
         tlc.require_covered(res, actions[name.rstrip("0123456789")], "FeatStats/" + name)
@@ -496,12 +694,22 @@ def run(ctx):
     lap("deltas")
     # ---- returns
     groups = {}
-    for r in results["ret"].records:
+    seen_ret = set()
+    ret_records = []
+    for r in results["ret"].records + results["retl"].records:
+        if (tuple(r["r"]), tuple(r["gamma"])) in seen_ret:
+            continue
+        seen_ret.add((tuple(r["r"]), tuple(r["gamma"])))
+        ret_records.append(r)
+    for r in ret_records:
         groups.setdefault((len(r["r"]), r["gamma"][0], r["gamma"][1]), []).append(r)
         ctx.case(key=("ret", r["r"], r["gamma"]), nontrivial=r["gamma"][0] != 0 and len(r["r"]) >= 2 and any(r["r"]), n=0,
                  sample=dict(machine="FeatStatsReturn", **r) if (len(r["r"]) == 4 and r["gamma"] == [3, 2] and ctx.rng.random() < 0.03 and _quota(ctx, "ret")) else None)
     for key in sorted(groups):
         replay_returns(ctx, key, sorted(groups[key], key=lambda r: r["r"]))
+    lap("returns")
+    run_returns_long(ctx, results["retl"].records)  # the universe on which TLC checked the lemmas
+    lap("returns_long")
     ctx.samples.append(dict(machine="FeatStatsLayout", **layouts[len(layouts) // 2]))
     ctx.extra.pop("_quota", None)
 
@@ -528,6 +736,12 @@ def replay(ctx, case):
         rec = dict(r=case["r"], gamma=case["gamma"], R=case["R"])
         replay_returns(ctx, (len(case["r"]), case["gamma"][0], case["gamma"][1]), [rec])
         print("replay time_distributed_return: %s" % ("differs" if ctx.violations else "agrees with the spec"))
+    elif kind == "return_long":
+        cols = [[(o, c) for o, c in case["col"]]]
+        dtype = torch.double if "64" in case["dtype"] else torch.float
+        ok = replay_returns_long(ctx, case["T"], case["gamma"][0], case["gamma"][1], cols, case["batch_first"], dtype, case["module"],
+                                 case.get("family", "long"))
+        print("replay time_distributed_return (long sequence): %s" % ("agrees with the spec" if ok else "differs"))
     else:
         raise MachineryError("unknown case kind %r" % kind)
 
